@@ -160,6 +160,12 @@ func (collection *linkCollectionImpl) SetLinks(tx *bbolt.Tx, id string, keys []s
 
 func (collection *linkCollectionImpl) EntityDeleted(tx *bbolt.Tx, id string) error {
 	bId := []byte(id)
+	if collection.field.GetStore().GetEntityBucket(tx, bId) == nil {
+		// The entity has no data in this collection's store, so nothing is linked through this
+		// collection. An extended child store is asked to clean up for every entity of its parent,
+		// also for those without extension data; that must not fail the delete.
+		return nil
+	}
 	fieldBucket := collection.getFieldBucketForStringId(tx, id)
 
 	if !fieldBucket.HasError() {
